@@ -113,7 +113,23 @@ def user_family_ops(rng):
                     'up': f, 'down': g, 'names': [word]})
     ops.append({'op': 'add_rule', 'lang': 'en', 'patterns': ['zork {NUMBER:a} {NUMBER:b}', '{NUMBER:a} zork'], 'spec': {'name': 'r1', 'kind': 'encode', 'weights': {'a': 1}}})
     ops.append({'op': 'add_rule', 'lang': rng.choice(['en', 'tr', 'xx']), 'patterns': ['blip {TEXT:t}'], 'spec': {'name': 'r2', 'kind': rng.choice(['decline', 'const']), 'value': 7}})
+    # pattern strings an application may hand over by mistake: empty, blank, comment-only, broken fields, no amount field ...
+    if rng.random() < 0.6:
+        bad = lambda: rng.choice(HOSTILE_PATTERNS)
+        k = rng.randrange(4)
+        if k == 0:
+            ops.append({'op': 'add_rule', 'lang': rng.choice(['en', 'tr']), 'patterns': [bad(), 'zonk {NUMBER:a}'], 'spec': {'name': 'r3', 'kind': 'const', 'value': 3}})
+        elif k == 1:
+            ops.append({'op': 'set_date_rule', 'lang': 'en', 'patterns': ['{NUMBER:day}/{NUMBER:month}/{NUMBER:year}', bad(), '{NUMBER:day} {MONTH:month} {NUMBER:year}']})
+        elif k == 2:
+            ops.append({'op': 'add_type_item', 'name': 'qfam', 'index': 9, 'format': '{value} QZ', 'parse': [bad(), '{NUMBER:value} {TEXT:type:qz}'], 'up': '{value}', 'down': '{value}', 'names': ['qz']})
+        else:
+            ops.append({'op': 'add_type_item', 'name': 'qfam', 'index': 8, 'format': rng.choice(['{value} QY', 'QY', '', '{value} {value}']), 'parse': [bad()], 'up': bad(), 'down': rng.choice(['{value}', '', '{value} /']), 'names': ['qy']})
     return ops
+
+
+HOSTILE_PATTERNS = ['', '   ', '# comment', '{', '}', '{NUMBER}', '{NUMBER:}', '{FOO:x}', '{TEXT:a:}', '{NUMBER:a', '{GROUP:g:nosuch_group} {NUMBER:n}', '{NUMBER:a} {NUMBER:a}',
+                    '[NUMBER:5]', '{DYNAMIC_TYPE:x}', '5', '+', '=', 'a = {NUMBER:b}', '{TEXT:type:qz}', '{NUMBER:value}', '{MONTH:m}', '{TIMEZONE:z} {TIME:t}']
 
 
 def family_text(rng):
@@ -269,11 +285,16 @@ def run_shard(ctx):
     res.notes.append('shard %d: clock %s, TZ %s' % (ctx.shard, clock_name, tz))
     shrunk = 0
     batch_no = 0
+    need_fresh = False
     while not ctx.out_of_time():
         batch_no += 1
         cfg = gh.hostile_config(rng)
         sane = (cfg['dec'], cfg['thou']) in SEP_CONFIGS
         cops = gh.config_ops(cfg)
+        if need_fresh:
+            # the previous batch registered a unit family and rules on the calculator: this one gets a new calculator
+            cops = [{'op': 'new_calc', 'c': 0, 'seg': True}] + gh.config_ops(cfg, 0, seg=False)
+            need_fresh = False
         ops = list(cops)
         meta = []
         use_session = rng.random() < 0.25
@@ -290,6 +311,8 @@ def run_shard(ctx):
             if use_session:
                 ops.append({'op': 'session_new', 's': 1})
             res.count('batches_with_user_family_and_rules')
+            need_fresh = True
+            sane = False              # a registered pattern such as '+' or '5' legitimately changes what '1 + 1' means: no sentinel values here
         nbatch = 150
         run_len, dirty = 0, False
         for _ in range(nbatch):
